@@ -343,6 +343,7 @@ def run_check(P, tier, seed, replay=None, report_as=None):
             tsources.update(e.get('sources', {}))
             if e.get('error'):
                 broken.append({'kind': 'translator', 'module': m, 'detail': e['error']})
+        broken.extend(getattr(P, 'SOURCE_TIE_ERRORS', []))     # source shapes a harness module reads itself
         ok_model, log_model = make(P.MODEL_TARGETS)
         ok_proofs, log_proofs = make(P.PROOF_TARGETS)
         pa = {'ok': False, 'axioms': [], 'theorems': [], 'log': '', 'foreign_axioms': [], 'unprinted': []}
